@@ -5,6 +5,7 @@ import (
 	"bytes"
 	"fmt"
 	"image"
+	"image/color"
 	"image/draw"
 	"runtime"
 	"testing"
@@ -39,6 +40,38 @@ func pix(m image.Image) (pix []uint8, stride int, r image.Rectangle) {
 func check(c Case) (kind, what string, nt bool) {
 	ev.Journal("convert", c)
 	b := img.Build(c.Src)
+	kind, what, nt = checkOnce(c, b)
+	if kind != "" {
+		return
+	}
+	// the same image value again after its pixels (or its palette) were changed in place: palette cycling, a
+	// reused frame buffer.  Anything remembered about the image from the first call is stale now.
+	if c.Src.Type == "Paletted" || ev.Hash(c)%3 == 0 {
+		changeInPlace(b)
+		if k, w, _ := checkOnce(c, b); k != "" {
+			return k, "after the image was changed in place and converted a second time: " + w, nt
+		}
+	}
+	return
+}
+
+// changeInPlace edits the image's own buffers (and palette) without replacing them.
+func changeInPlace(b img.Built) {
+	if p, ok := img.Unwrap(b.Img).(*image.Paletted); ok {
+		for i := range p.Palette {
+			r, g, bl, a := p.Palette[i].RGBA()
+			p.Palette[i] = color.NRGBA64{R: uint16(bl) ^ 0x1357, G: uint16(r), B: uint16(g) ^ 0xFF00, A: uint16(a) | 0x8000}
+		}
+		return
+	}
+	for _, buf := range b.Bufs {
+		for i := range *buf {
+			(*buf)[i] ^= byte(0x5A + i%7)
+		}
+	}
+}
+
+func checkOnce(c Case, b img.Built) (kind, what string, nt bool) {
 	before := b.Snapshot()
 	var got, want image.Image
 	bounds := b.Img.Bounds()
